@@ -562,8 +562,6 @@ func (g *GoBackNConn) receivePacketsForever() error { // nolint:gocyclo
 			g.pongTicker.Pause()
 		}
 
-		g.resendTicker.Reset(g.timeoutManager.GetResendTimeout())
-
 		switch m := msg.(type) {
 		case *PacketData:
 			switch m.Seq == g.recvSeq {
@@ -651,6 +649,17 @@ func (g *GoBackNConn) receivePacketsForever() error { // nolint:gocyclo
 		case *PacketACK:
 			gotValidACK := g.sendQueue.processACK(m.Seq)
 			if gotValidACK {
+				// The peer acknowledged data that was still in
+				// our queue, so we restart the resend timeout
+				// for what remains. Note that only such an ACK
+				// may postpone a resend: if any inbound packet
+				// did, a peer that keeps sending us data faster
+				// than the resend timeout would stop us from
+				// ever resending a lost packet.
+				g.resendTicker.Reset(
+					g.timeoutManager.GetResendTimeout(),
+				)
+
 				// Send a signal to indicate that new
 				// ACKs have been received.
 				select {
